@@ -20,20 +20,21 @@ mvars == <<cfg, node, hist>>
 \* hist: the modules into which the statement was copied by uses, innermost first
 MInit == /\ cfg \in Cfgs /\ node = [tree |-> "", useTree |-> "", at |-> ""] /\ hist = << >>
 Write == /\ node.tree = ""
-         /\ \E t \in Present(cfg) : node' = [tree |-> t, useTree |-> "", at |-> t]
+         /\ \E t \in Units(cfg) : node' = [tree |-> t, useTree |-> "", at |-> t]
          /\ UNCHANGED <<cfg, hist>>
 \* a grouping holding the node (it sits in module node.at) is used by module u (u = at, or u imports at)
 CloneByUses == /\ node.tree # "" /\ Len(hist) < MaxSteps
-               /\ \E u \in Present(cfg) : /\ (u = node.at \/ ImportsMod(cfg, u, node.at))
+               /\ \E u \in Units(cfg) : /\ (u = node.at \/ Sees(cfg, u, node.at) \/ (IsSub(node.at) /\ u = ModOf(node.at)))
                                           /\ node' = [node EXCEPT !.useTree = u, !.at = u]
                                           /\ hist' = Append(hist, u)
                /\ UNCHANGED cfg
 \* the node (written under an augment of module at) is moved into module u's tree
 MoveByAugment == /\ node.tree # "" /\ Len(hist) < MaxSteps
-                 /\ \E u \in Present(cfg) : ImportsMod(cfg, node.at, u) /\ node' = [node EXCEPT !.at = u]
+                 /\ \E u \in Present(cfg) : ImportsMod(cfg, node.at, u) /\ ModOf(node.at) # u /\ node' = [node EXCEPT !.at = u]
                  /\ UNCHANGED <<cfg, hist>>
 MNext == Write \/ CloneByUses \/ MoveByAugment
-\* --- what the compiler computes from the node
+\* --- what the compiler computes from the node (Root() of a statement written in a submodule is the
+\*     submodule: its own import statements, and its belongs-to prefix for its module)
 MechKnown(p) == Known(cfg, node.tree, p)
 MechLookup(p) == Lookup(cfg, node.tree, p)
 MechCurrent == IF node.useTree # "" THEN node.useTree ELSE node.tree
